@@ -38,7 +38,8 @@ def cellAt (naRep : Str) (t : TableVal) (c : Column) (j i : Nat) : Str :=
 structure WF (ext : Ext) (sep : Char) (naRep : Str) (t : TableVal) : Prop where
   naRepOK : NaRepOK naRep
   sepOK : sep ≠ '\n'
-  /-- no separator / newline in any written cell text (name, destinations, names, units, values) -/
+  sepNoCR : sep ≠ '\r'
+  /-- no separator / newline / carriage return in any written cell text (name, destinations, names, units, values) -/
   clean : CellsClean sep naRep t
   /-- `**name` / `**name*` is a table marker: the name does not start with `*`, and is not empty when transposed -/
   headerTable : leading '*' (header t) = 2
@@ -912,19 +913,77 @@ end Pdt.C01
 namespace Pdt.C01
 open Pdt Pdt.Reader Pdt.Represent Pdt.Write
 
-/-- the `sep is None → pdtable.CSV_SEP` glue of `write_csv` / `read_csv`: with the package default the same
-    round trip holds (the default is a single character, currently `;`) -/
-theorem csv_roundtrip_default_sep (ext : Ext) (naRep : Str) (ts : List TableVal) (sepArg : Option Char)
-    (hwf : ∀ t ∈ ts, WF ext (sepArg.getD (Gen.csvSep.headD ';')) naRep t) :
-    let sep := sepArg.getD (Gen.csvSep.headD ';')
-    let r := readCsv ext sep (writeCsv sep naRep ts)
+/-! ## 8b. file paths versus text streams; explicit separator versus the package default -/
+
+/-- a text without carriage returns passes the universal-newline translation unchanged -/
+theorem univNL_id (s : Str) (h : '\r' ∉ s) : univNL s = s := by
+  fun_induction univNL s <;> simp_all
+
+theorem mem_unlines (c : Char) (ls : List Str) (h : c ∈ unlines ls) : c = '\n' ∨ ∃ l ∈ ls, c ∈ l := by
+  unfold unlines at h
+  simp only [List.mem_flatMap, List.mem_append, List.mem_singleton] at h
+  obtain ⟨l, hl, hc | hc⟩ := h
+  · exact Or.inr ⟨l, hl, hc⟩
+  · exact Or.inl hc
+
+/-- the written text of well-formed tables holds no carriage return -/
+theorem writeCsv_no_cr (sep : Char) (naRep : Str) (ts : List TableVal) (hsep : sep ≠ '\r')
+    (hc : ∀ t ∈ ts, CellsClean sep naRep t) : '\r' ∉ writeCsv sep naRep ts := by
+  intro hmem
+  unfold writeCsv at hmem
+  rcases mem_unlines _ _ hmem with e | ⟨l, hl, hcl⟩
+  · exact absurd e (by decide)
+  · simp only [List.mem_flatMap] at hl
+    obtain ⟨t, ht, hlt⟩ := hl
+    rw [tableLines_eq] at hlt
+    simp only [List.mem_append, List.mem_map] at hlt
+    rcases hlt with (⟨cs, hcs, rfl⟩ | hlt) | hlt
+    · rcases mem_joinWith sep '\r' cs hcl with e | ⟨x, hx, hxc⟩
+      · exact hsep e.symm
+      · exact (hc t ht cs hcs x hx).2.2 hxc
+    · by_cases hd : dataEmpty t = true <;> simp [hd] at hlt
+      subst hlt; simp at hcl
+    · simp at hlt; subst hlt; simp at hcl
+
+/-- **file paths and text streams, explicit separator and package default.**
+    `write_csv` / `read_csv` resolve a missing `sep` argument to the package-wide `pdtable.CSV_SEP`, each on its own,
+    at call time; a file opened by path is read with universal-newline translation.  For every package default,
+    every pair of `sep` arguments that resolve to the same character, path or stream: the round trip of `csv_roundtrip`. -/
+theorem csv_roundtrip_api (ext : Ext) (pkgSep : Char) (sepW sepR : Option Char) (byPath : Bool) (naRep : Str)
+    (ts : List TableVal) (hsame : resolveSep pkgSep sepR = resolveSep pkgSep sepW)
+    (hwf : ∀ t ∈ ts, WF ext (resolveSep pkgSep sepW) naRep t) :
+    let r := readCsvApi ext pkgSep sepR byPath (writeCsvApi pkgSep sepW naRep ts)
+    r.blocks.map (fun d => (d.ty, d.val)) = ts.map (fun t => (BT.table, Blocks.BlockVal.table (observe t))) ∧
+    r.issues = [] ∧ r.ending = .exhausted := by
+  have hstream := csv_roundtrip ext (resolveSep pkgSep sepW) naRep ts hwf
+  unfold readCsvApi writeCsvApi
+  rw [hsame]
+  cases byPath with
+  | false => simpa using hstream
+  | true =>
+    simp only [if_true, readCsvPath]
+    rw [univNL_id]
+    · exact hstream
+    · cases ts with
+      | nil => simp [writeCsv, unlines]
+      | cons t rest =>
+        exact writeCsv_no_cr _ naRep _ (hwf t (by simp)).sepNoCR (fun u hu => (hwf u hu).clean)
+
+/-- the case the statement names: no `sep` argument on either side, the package default in force (`;` in the source,
+    `writer_constants_pinned`), by path -/
+theorem csv_roundtrip_package_default (ext : Ext) (byPath : Bool) (naRep : Str) (ts : List TableVal)
+    (hwf : ∀ t ∈ ts, WF ext (Gen.csvSep.headD ';') naRep t) :
+    let r := readCsvApi ext (Gen.csvSep.headD ';') none byPath (writeCsvApi (Gen.csvSep.headD ';') none naRep ts)
     r.blocks.map (fun d => (d.ty, d.val)) = ts.map (fun t => (BT.table, Blocks.BlockVal.table (observe t))) ∧
     r.issues = [] ∧ r.ending = .exhausted :=
-  csv_roundtrip ext _ naRep ts hwf
+  csv_roundtrip_api ext _ none none byPath naRep ts rfl hwf
 
-/-- writing is a function of the table values alone: the model has no state to modify -/
-theorem write_pure (sep : Char) (naRep : Str) (ts : List TableVal) :
-    writeCsv sep naRep ts = unlines (ts.flatMap (tableLines sep naRep)) := rfl
+/-- a carriage return inside a cell is where path and stream differ: the stream reads it back, the path does not
+    (why `WF` excludes it) -/
+example : univNL "x\ry".toList = "x\ny".toList ∧ univNL "a\r\nb".toList = "a\nb".toList := by decide
+
+/- "writing leaves the written tables unmodified" has no counterpart in the model (its values are immutable):
+   that clause is decided by the harness alone (snapshot of every written table before / after), see EXTRA. -/
 
 end Pdt.C01
 
@@ -974,7 +1033,8 @@ theorem valOKb_sound (ext : Ext) (unit : Str) (pos : Nat) (v : Val) (h : valOKb 
   · rw [if_pos h1] at h ⊢
     cases v with
     | text s =>
-      refine ⟨s, rfl, ?_⟩
+      simp only [Bool.and_eq_true, Bool.not_eq_true', bne_iff_ne, ne_eq] at h
+      refine ⟨s, rfl, ?_, h.2⟩
       intro hp hs
       simp [hp, hs] at h
     | _ => simp at h
@@ -1012,14 +1072,14 @@ theorem wfCheck_sound (ext : Ext) (sep : Char) (naRep : Str) (t : TableVal)
     (h : wfCheck ext sep naRep t = true) : WF ext sep naRep t := by
   unfold wfCheck at h
   simp only [Bool.and_eq_true] at h
-  obtain ⟨⟨⟨⟨⟨⟨⟨⟨⟨⟨⟨⟨⟨⟨⟨h1, h2⟩, h3⟩, h4⟩, h5⟩, h6⟩, h7⟩, h8⟩, h9⟩, h10⟩, h11⟩, h12⟩, h13⟩, h14⟩, h15⟩, h16⟩ := h
-  refine ⟨naRepOKb_sound naRep h1, by simpa using h2, ?_, by simpa using h4, by simpa using h5,
+  obtain ⟨⟨⟨⟨⟨⟨⟨⟨⟨⟨⟨⟨⟨⟨⟨⟨h1, h2⟩, h2r⟩, h3⟩, h4⟩, h5⟩, h6⟩, h7⟩, h8⟩, h9⟩, h10⟩, h11⟩, h12⟩, h13⟩, h14⟩, h15⟩, h16⟩ := h
+  refine ⟨naRepOKb_sound naRep h1, by simpa using h2, by simpa using h2r, ?_, by simpa using h4, by simpa using h5,
     by simpa using h6, plainTextb_sound _ h7, by simpa using h8, ?_, ?_, ?_, ?_, ?_, ?_, ?_, ?_⟩
   · intro row hrow x hx
     simp only [List.all_eq_true] at h3
     have := h3 row hrow x hx
     simp only [Bool.and_eq_true, Bool.not_eq_true', List.contains_eq_mem, decide_eq_false_iff_not] at this
-    exact this
+    exact ⟨this.1.1, this.1.2, this.2⟩
   · intro c hc
     simp only [List.all_eq_true] at h9
     have := h9 c hc
